@@ -24,7 +24,8 @@ def tasks(tier):
                     ts.append(Task('verifHarness_C09_step', [version, keyed, shape, sl, raw]))
         ts.append(Task('verifHarness_C09_three', [version, keyed]))
     ts.append(Task('verifHarness_C09_init', []))
-    ts.append(Task('verifHarness_C09_v1_big_id', []))
+    for raw in (0, 1, 2):
+        ts.append(Task('verifHarness_C09_v1_big_id', [raw]))
     return ts
 
 
